@@ -174,4 +174,14 @@ def fromDefs (R : Registry) (defs : List Definition) : Except Err State :=
       let orphans := (groupMembers st "root").filter fun n => !grouped.contains n
       .ok { st with groups := st.groups.map fun g => if g.name == gname then { g with units := dedup (g.units ++ orphans) } else g }
 
+/-- `System.__getattr__(item)` : the system's variant `<system>_<item>` if the registry resolves that name
+    (names, aliases, plurals, prefixes …), else the plain unit -/
+def systemAttr (R : Registry) (sysName item : String) : Except Err String :=
+  match R.getName (sysName ++ "_" ++ item) with
+  | .ok (n, _) => .ok n
+  | .error _ =>
+    match R.getName item with
+    | .ok (n, _) => .ok n
+    | .error e => .error e
+
 end Pint.GS
